@@ -9,7 +9,7 @@ extern "C" {
 #include <skybrush/yaw_control.h>
 }
 
-extern bool g_track;
+extern volatile bool g_track;
 extern long g_fail_at, g_failed, g_alien_free, g_alien_realloc, g_alloc_count;
 void ledger_adopt(void* p);
 long ledger_live();
